@@ -613,4 +613,35 @@ def elemMin : Elem → Elem → Elem
 def mixedMaxCast (s : XR) (e : Elem) : XR := embed (elemMax (castLike s e) e)
 def mixedMinCast (s : XR) (e : Elem) : XR := embed (elemMin (castLike s e) e)
 
+/-! ### Machine-limit helpers are functions of the dtype tag
+
+  `ops.finfo(x) = np.finfo(x.dtype)`: the limits a stabilised op clamps with depend on the dtype of
+  THIS operand only, never on what was asked before.  The limits are recorded by their binary
+  exponent (max ≈ 2^maxExp, smallest normal 2^minExp, eps 2^-mant). -/
+
+inductive FloatTy where
+  | f16 | f32 | f64
+  deriving DecidableEq, Repr, Inhabited
+
+structure Limits where
+  maxExp : Nat
+  minExp : Int
+  mant : Nat
+  deriving DecidableEq, Repr, Inhabited
+
+def finfoOf : FloatTy → Limits
+  | .f16 => ⟨16, -14, 10⟩
+  | .f32 => ⟨128, -126, 23⟩
+  | .f64 => ⟨1024, -1022, 52⟩
+
+/-- what the code does: a pure lookup; the history of earlier requests is ignored -/
+def finfoAfter (_history : List FloatTy) (dt : FloatTy) : Limits := finfoOf dt
+
+/-- a cache keyed by the dtype KIND ('f' for every float type): the first float type ever asked
+    fixes the answer for all later ones -/
+def finfoKindCached (history : List FloatTy) (dt : FloatTy) : Limits :=
+  match history with
+  | [] => finfoOf dt
+  | first :: _ => finfoOf first
+
 end FV.C15
